@@ -54,7 +54,34 @@ def _hal_sources(t):
     t.repo(CORE + "acquire-core-logger/logger.c")
 
 
+def _stor_sources(t):
+    t.verif("harness/stor/stor.cpp")
+    t.verif("engine/vfd/vfd.cpp")
+    wrap = ["-Dfile_write=vh_file_write", "-Dfile_create=vh_file_create"]
+    for f in ["storage/raw.c", "storage/tiff.cpp", "storage/side-by-side-tiff.cpp", "storage/trash.c"]:
+        t.repo(DRV + f, wrap)
+    for f in ["storage/basic.storage.c", "basics.driver.c"]:
+        t.repo(DRV + f)
+    t.repo(CORE + "acquire-device-hal/device/hal/storage.c")
+    t.repo(CORE + "acquire-device-hal/device/hal/driver.c")
+    t.repo(CORE + "acquire-device-properties/device/props/storage.c")
+    t.repo(CORE + "acquire-device-properties/device/props/components.c")
+    t.repo(CORE + "acquire-device-properties/device/props/device.c")
+    t.repo(CORE + "acquire-core-platform/linux/platform.c", FILE_RENAMES)
+    t.repo(CORE + "acquire-core-logger/logger.c")
+
+
 HARNESSES = {
+    "stor": {
+        "props": ["C14", "C15", "C16"],
+        "sources": _stor_sources,
+        "engines": ["rc", "rp", "fz"],
+        "level": {"C16": "fault_enumeration"},
+        "extras": {"C16": ["stor_fault_enum"]},
+        "quick": {"rc_cases": 20000, "rc_size": 30},
+        "thorough": {"rc_cases": 150000, "rc_size": 50, "fz_secs": 120},
+        "fz_max_tokens": 60,
+    },
     "hal": {
         "props": ["C11"],
         "sources": _hal_sources,
